@@ -900,3 +900,443 @@ Section AfterFunction.
     - simpl. rewrite q_rest_toks. apply Permutation_refl.
   Qed.
 End AfterFunction.
+
+(* ================= signals ================= *)
+Definition setsigs (kvs t : sigtab) : sigtab := fold_left (fun t sh => setsig (fst sh) (snd sh) t) kvs t.
+
+Lemma getsig_restore (g : nat -> nat) : forall L t s, In s L ->
+  getsig s (setsigs (map (fun s => (s, g s)) L) t) = g s.
+Proof.
+  induction L as [|a L IH] using rev_ind; intros t s Hin; [destruct Hin|].
+  unfold setsigs. rewrite map_app, fold_left_app. simpl.
+  destruct (Nat.eqb a s) eqn:Ea.
+  - apply Nat.eqb_eq in Ea. subst. reflexivity.
+  - apply in_app_or in Hin as [Hin|[Hin|[]]].
+    + apply IH. exact Hin.
+    + subst. rewrite Nat.eqb_refl in Ea. discriminate.
+Qed.
+
+(* table obligations (Gen/Spinnertabs.v is printed from the live code) *)
+Lemma tab_iterations : spinner_iterations = 0.
+Proof. reflexivity. Qed.
+
+Lemma tab_preserved : forall s, In s reactor_signals -> In s preserved_signals.
+Proof.
+  assert (H : forallb (fun s => existsb (Nat.eqb s) preserved_signals) reactor_signals = true) by reflexivity.
+  intros s Hs. rewrite forallb_forall in H. specialize (H s Hs). apply existsb_exists in H as [y [Hy E]].
+  apply Nat.eqb_eq in E. subst. exact Hy.
+Qed.
+
+Lemma tab_signals_distinct : NoDup reactor_signals.
+Proof. unfold reactor_signals. repeat constructor; simpl; intuition discriminate. Qed.
+
+(* ================= one run() on an idle reactor ================= *)
+Record Idle (w : world) : Prop := {
+  id_run : running (w_r w) = false;
+  id_q : queue (w_r w) = [];
+  id_rd : readers (w_r w) = [];
+  id_hk : hooks (w_r w) = [];
+  id_rs : really_stopped (w_r w) = false;
+  id_stop : w_stop w = SReal;
+  id_flag : w_flag w = false
+}.
+
+Definition sig_run (sg : sigtab) : sigtab := fold_left (fun t s => setsig s h_reactor t) reactor_signals sg.
+Definition saved_of (sg : sigtab) : sigtab := map (fun s => (s, getsig s sg)) preserved_signals.
+
+Definition finish (e : loop_end) (wl : world) : res value exc * world :=
+  let w := restore_signals (set_stop SReal wl) in
+  match e with
+  | LDone => (get_result (w_sp w), clean 0 w)
+  | _ => (Raised EOther, w)
+  end.
+
+Lemma run_body_eq batch T f n sq orc sg su fa spn tc sv re :
+  run_body (inner_run 0 batch) 0 batch T f
+    (mkW (mkReactor n sq [] [] [] false false orc) SReal sg true (mkSp su fa [] spn tc sv) [] re)
+  = let '(e, wl) := loop w_r set_r exec_call batch (1 + length (f_extras f) + 4)
+                         (run_function (inner_run 0 batch) f (w_hook n T sq orc (sig_run sg) (saved_of sg) re)) in
+    finish e wl.
+Proof. reflexivity. Qed.
+
+Lemma finish_ok wl : running (w_r wl) = false -> hooks (w_r wl) = [] -> really_stopped (w_r wl) = false ->
+  w_flag wl = true -> sp_junk (w_sp wl) = [] ->
+  exists w3, finish LDone wl = (get_result (w_sp wl), w3)
+    /\ Idle (set_flag false w3)
+    /\ sp_junk (w_sp w3) = map tokc (queue (w_r wl)) ++ readers (w_r wl)
+    /\ w_ran w3 = w_ran wl /\ w_reentry w3 = w_reentry wl
+    /\ w_sig w3 = setsigs (sp_saved (w_sp wl)) (w_sig wl).
+Proof.
+  destruct wl as [[n sq q h rd run rs orc] st sg fl [su fa jk spn tc sv] ran re]. prj. intros -> -> -> -> ->.
+  unfold finish, clean. simpl Nat.iter.
+  set (w1 := restore_signals _).
+  assert (Ew1 : w1 = mkW (mkReactor n sq q [] rd false false orc) SReal (setsigs sv sg) true
+                         (mkSp su fa [] spn tc []) ran re) by reflexivity.
+  rewrite Ew1. clear w1 Ew1. prj.
+  set (w0 := mkW _ _ _ _ _ _ _).
+  pose proof (cancel_all_aux q w0 (fun c H => H)) as Hq.
+  pose proof (fold_cancel_frame q w0) as Hf. cbv zeta in Hf.
+  set (wc := fold_left _ q w0) in *.
+  destruct wc as [[n' sq' q' h' rd' run' rs' orc'] st' sg' fl' sp' ran' re']. subst w0. prj.
+  destruct Hf as [-> [-> [-> [-> [-> [-> [-> [-> [-> ->]]]]]]]]]. subst q'.
+  eexists. split; [reflexivity|]. prj. unfold remove_all, set_r, set_sp, sp_set_junk. prj.
+  split; [constructor; reflexivity|]. repeat split; reflexivity.
+Qed.
+
+Lemma filter_nt_rd2 f : filter nt (rd2 f) = rd2 f.
+Proof.
+  unfold rd2. generalize 0. induction (f_sels f) as [|m IH]; intro j; simpl; [reflexivity|].
+  rewrite IH. reflexivity.
+Qed.
+
+Lemma legit_tok0 x c : legit x c -> tokc c = 0 -> dc_seq c = c_s x.
+Proof.
+  unfold legit, tokc. intros [_ H] Ht. destruct (dc_act c) as [|o| |tk|]; simpl in *; try discriminate.
+  - apply H.
+  - lia.
+  - destruct H.
+Qed.
+
+Definition restored (sg0 sg' : sigtab) : Prop := forall s, In s preserved_signals -> getsig s sg' = getsig s sg0.
+
+Theorem run_fresh batch T f w : Idle w -> sp_junk (w_sp w) = [] -> w_ran w = [] ->
+  exists r w', run 0 batch T f w = (r, w') /\ Idle w'
+    /\ allowed T f (w_ran w') r = true
+    /\ w_reentry w' = (if f_reenter f then Some true else w_reentry w)
+    /\ Permutation (filter nt (w_ran w') ++ filter nt (sp_junk (w_sp w'))) (sched_tokens f)
+    /\ (In tok_timeout (sp_junk (w_sp w')) -> r = Raised ENoResult)
+    /\ restored (w_sig w) (w_sig w').
+Proof.
+  intros [Hrun Hq Hrd Hhk Hrs Hst Hfl] Hjk Hran.
+  destruct w as [[n sq q h rd run rs orc] st sg fl [su fa jk spn tc sv] ran re]. prj. subst.
+  unfold run, guarded. prj. cbv iota. unfold set_flag at 1. prj.
+  rewrite run_body_eq, run_function_eq.
+  set (SG := sig_run sg). set (SV := saved_of sg).
+  assert (Hrest : forall w3 sgl, w_sig w3 = setsigs SV sgl -> restored sg (w_sig (set_flag false w3))).
+  { intros w3 sgl H1 s Hs. unfold set_flag; prj. rewrite H1. unfold SV, saved_of.
+    apply (getsig_restore (fun s => getsig s sg)). exact Hs. }
+  destruct (is_sync f) eqn:Hsy; [|destruct (f_stop_now f) eqn:Hsn].
+  - (* the function returned a result synchronously *)
+    unfold is_sync in Hsy. destruct (f_shape f) as [how o| |] eqn:Es; try discriminate.
+    assert (Ew : w_after n T f sq orc SG SV re =
+                 mkW (mkReactor n (s_fire n f sq) (q_rest n f sq) [] (rd2 f) false false orc) SFake (sig_fn f SG) true
+                     (mkSp (match o with Succeed v => Some v | Fail _ => None end)
+                           (match o with Succeed _ => None | Fail e => Some (EUser e) end)
+                           [] false (Some sq) SV) [] (re2 f re)).
+    { unfold w_after. rewrite Es. reflexivity. }
+    rewrite Ew. rewrite loop_stopped by reflexivity.
+    match goal with |- context [finish LDone ?wl] => destruct (finish_ok wl) as [w3 [Ef [Hid [Hj [Hr [Hre Hsg]]]]]]; try reflexivity end.
+    rewrite Ef. prj. eexists; eexists. split; [reflexivity|]. split; [exact Hid|].
+    unfold set_flag; prj. rewrite Hj, Hr, Hre. prj.
+    split; [|split; [reflexivity|split; [|split]]].
+    + unfold allowed. rewrite Es. apply result_eqb_spec. destruct o; reflexivity.
+    + simpl. rewrite filter_app, filter_nt_rd2. rewrite q_rest_toks. apply Permutation_refl.
+    + intro Hin. exfalso. apply in_app_or in Hin as [Hin|Hin].
+      * apply in_map_iff in Hin as [c [Ht Hc]].
+        pose proof (q_all_legit n T f sq SG SV re) as Hl. inversion Hl as [|? ? _ Hl']; subst.
+        eapply Forall_forall in Hl'; [|exact Hc]. apply legit_tok0 in Hl'; [|exact Ht].
+        apply q_rest_seqs in Hc. simpl in Hl'. lia.
+      * apply rd2_toks in Hin. unfold tok_timeout in Hin. lia.
+    + apply (Hrest w3 _ Hsg).
+  - (* the function stopped the reactor itself and returned an unfired Deferred *)
+    assert (Ew : w_after n T f sq orc SG SV re =
+                 mkW (mkReactor n (length (q_fire n (s_fire n f sq) f) + s_fire n f sq) (tmo n T sq :: q_rest n f sq) [] (rd2 f) false false orc)
+                     SFake (sig_fn f SG) true (mkSp None None [] true (Some sq) SV) [] (re2 f re)).
+    { unfold w_after. unfold is_sync in Hsy. rewrite Hsn. destruct (f_shape f); [discriminate| |]; reflexivity. }
+    rewrite Ew. rewrite loop_stopped by reflexivity.
+    match goal with |- context [finish LDone ?wl] => destruct (finish_ok wl) as [w3 [Ef [Hid [Hj [Hr [Hre Hsg]]]]]]; try reflexivity end.
+    rewrite Ef. prj. eexists; eexists. split; [reflexivity|]. split; [exact Hid|].
+    unfold set_flag; prj. rewrite Hj, Hr, Hre. prj.
+    split; [|split; [reflexivity|split; [|split]]].
+    + unfold allowed. rewrite Hsn. unfold is_sync in Hsy. destruct (f_shape f); [discriminate| |]; reflexivity.
+    + simpl. rewrite filter_app, filter_nt_rd2. rewrite q_rest_toks. apply Permutation_refl.
+    + intros _. reflexivity.
+    + apply (Hrest w3 _ Hsg).
+  - (* the reactor spins until one of the three events ends the run *)
+    pose proof (after_inv n T f sq orc SG SV re Hsy Hsn) as HI0.
+    destruct (loop_ok (cx n T f sq SG SV re) batch (1 + length (f_extras f) + 4) _ HI0) as [wl [El [HI Hrunl]]].
+    { assert (Hl : length (queue (w_r (w_after n T f sq orc SG SV re))) <= 1 + length (f_extras f) + 2).
+      { unfold w_after. unfold is_sync in Hsy. destruct (f_shape f) eqn:Es; [discriminate| |]; prj; simpl length;
+          unfold q_rest, q_mid; rewrite !app_length, mk_extras_length; unfold q_stop, q_fire; rewrite Es;
+          destruct (f_stop f); simpl; lia. }
+      lia. }
+    rewrite El.
+    destruct (finish_ok wl Hrunl (i_hooks _ _ HI) (i_rs _ _ HI) (i_flag _ _ HI) (i_junk _ _ HI))
+      as [w3 [Ef [Hid [Hj [Hr [Hre Hsg]]]]]].
+    rewrite Ef. eexists; eexists. split; [reflexivity|]. split; [exact Hid|].
+    unfold set_flag; prj. rewrite Hj, Hr, Hre.
+    pose proof (st_decided _ _ _ _ (i_st _ _ HI)) as Hdec. simpl c_f in Hdec.
+    split; [|split; [|split; [|split]]].
+    + unfold allowed. rewrite Hsn. unfold is_sync in Hsy.
+      assert (Hgoal : negb (Nat.eqb (length (crash_toks (w_ran wl))) 0)
+                      && forallb (fun k => option_eqb Nat.eqb (ev_time T f k) (Some (earliest (events T f))))
+                                 (crash_toks (w_ran wl))
+                      && result_eqb (get_result (w_sp wl)) (decided f (crash_toks (w_ran wl))) = true).
+      { rewrite !andb_true_iff. split; [split|].
+        - destruct (i_live _ _ HI) as [H|H]; [congruence|]. unfold E in H.
+          destruct (crash_toks (w_ran wl)); [congruence | reflexivity].
+        - apply forallb_forall. intros k Hk. pose proof (i_early _ _ HI k Hk) as He. simpl c_T in He. simpl c_f in He.
+          rewrite He. unfold estar. simpl. apply Nat.eqb_refl.
+        - apply result_eqb_spec. exact Hdec. }
+      destruct (f_shape f); [discriminate| |]; exact Hgoal.
+    + rewrite (i_re _ _ HI). reflexivity.
+    + rewrite filter_app, (i_rd _ _ HI). simpl c_rd. rewrite filter_nt_rd2. exact (i_perm _ _ HI).
+    + intro Hin. rewrite (i_rd _ _ HI) in Hin. simpl c_rd in Hin. apply in_app_or in Hin as [Hin|Hin].
+      * apply in_map_iff in Hin as [c [Ht Hc]].
+        pose proof (i_legit _ _ HI) as Hl. eapply Forall_forall in Hl; [|exact Hc].
+        apply legit_tok0 in Hl; [|exact Ht]. simpl c_s in Hl.
+        assert (Hp : seq_in sq (queue (w_r wl)) = true) by (apply seq_in_spec; exists c; split; assumption).
+        destruct (i_st _ _ HI) as [_ _ _ Hs Hf | Hp' _ _ | Hp' _ _ _]; simpl c_s in *; try congruence.
+        unfold get_result. rewrite Hf, Hs. reflexivity.
+      * apply rd2_toks in Hin. unfold tok_timeout in Hin. lia.
+    + rewrite (i_saved _ _ HI) in Hsg. apply (Hrest w3 _ Hsg).
+Qed.
+
+(* the two refusals *)
+Lemma run_reentrant iters batch T f w : w_flag w = true -> run iters batch T f w = (Raised EReentry, w).
+Proof. intro H. unfold run, guarded. rewrite H. reflexivity. Qed.
+
+Lemma run_stale iters batch T f w : w_flag w = false -> sp_junk (w_sp w) <> [] ->
+  run iters batch T f w = (Raised EStaleJunk, w).
+Proof.
+  destruct w as [r st sg fl [su fa jk spn tc sv] ran re]. prj. intros -> Hj.
+  unfold run, guarded, run_body. prj. destruct jk; [congruence|]. reflexivity.
+Qed.
+
+(* ================= histories ================= *)
+Lemma filter_perm {A} (p : A -> bool) l l' : Permutation l l' -> Permutation (filter p l) (filter p l').
+Proof.
+  induction 1; simpl.
+  - constructor.
+  - destruct (p x); [constructor|]; assumption.
+  - destruct (p x), (p y); try reflexivity; try (constructor; reflexivity).
+  - etransitivity; eassumption.
+Qed.
+
+Lemma sort_toks_perm l : Permutation l (sort_toks l).
+Proof. apply isort_perm. Qed.
+
+Lemma sort_toks_nil l : sort_toks l = [] -> l = [].
+Proof. intro H. pose proof (sort_toks_perm l) as P. rewrite H in P. apply Permutation_nil. symmetry. exact P. Qed.
+
+Lemma natlist_eqb_refl l : list_eqb Nat.eqb l l = true.
+Proof. apply natlist_eqb_spec. reflexivity. Qed.
+
+Lemma preinstall_sigs pre w : length pre = length reactor_signals ->
+  map (fun s => getsig s (w_sig (preinstall pre w))) reactor_signals = pre.
+Proof.
+  destruct pre as [|a [|b [|c [|d pre]]]]; try discriminate. intros _. reflexivity.
+Qed.
+
+Lemma idle_prepare rs w : Idle w ->
+  Idle (set_reentry None (set_ran [] (preinstall (r_pre rs) (if r_clear rs then clear_junk w else w)))).
+Proof.
+  intros [H1 H2 H3 H4 H5 H6 H7]. destruct w as [r st sg fl sp ran re].
+  destruct (r_clear rs); constructor; assumption.
+Qed.
+
+Lemma step_ok batch w rs : Idle w -> wf_run rs ->
+  run_okb (if r_clear rs then [] else sort_toks (sp_junk (w_sp w))) rs (fst (step batch w rs)) = true
+  /\ Idle (snd (step batch w rs))
+  /\ o_junk (fst (step batch w rs)) = sort_toks (sp_junk (w_sp (snd (step batch w rs)))).
+Proof.
+  intros Hid Hwf. unfold step. rewrite tab_iterations.
+  set (w3 := set_reentry None (set_ran [] (preinstall (r_pre rs) (if r_clear rs then clear_junk w else w)))).
+  pose proof (idle_prepare rs w Hid) as Hid3. fold w3 in Hid3.
+  assert (Hsig3 : map (fun s => getsig s (w_sig w3)) reactor_signals = r_pre rs).
+  { subst w3. unfold set_reentry, set_ran. prj. apply preinstall_sigs. exact Hwf. }
+  assert (Hran3 : w_ran w3 = []) by reflexivity.
+  assert (Hre3 : w_reentry w3 = None) by reflexivity.
+  assert (Hj3 : sp_junk (w_sp w3) = if r_clear rs then [] else sp_junk (w_sp w)).
+  { subst w3. destruct w as [r st sg fl [su fa jk spn tc sv] ran re]. destruct (r_clear rs); reflexivity. }
+  destruct (sp_junk (w_sp w3)) as [|j0 jr] eqn:Ej.
+  - (* no stale junk: the run takes place *)
+    destruct (run_fresh batch (r_timeout rs) (r_fn rs) w3 Hid3 Ej Hran3)
+      as [r [w' [Er [Hid' [Hal [Hre [Hperm [Hown Hrest]]]]]]]].
+    rewrite Er. cbn [fst snd]. split; [|split; [exact Hid' | reflexivity]].
+    assert (Hstale : (if r_clear rs then [] else sort_toks (sp_junk (w_sp w))) = []).
+    { destruct (r_clear rs); [reflexivity|]. rewrite <- Hj3. reflexivity. }
+    rewrite Hstale. unfold run_okb, clean_okb, observe. cbn [o_res o_reentry o_ran o_order o_junk o_running o_pending o_readers o_stop_ok o_sigs].
+    destruct Hid' as [H1 H2 H3 H4 H5 H6 H7]. rewrite H1, H2, H3, H5, H6. cbn [length negb Nat.eqb andb].
+    assert (Hsigs : map (fun s => getsig s (w_sig w')) reactor_signals = r_pre rs).
+    { rewrite <- Hsig3. apply map_ext_in. intros s Hs. apply Hrest. apply tab_preserved. exact Hs. }
+    rewrite Hsigs, natlist_eqb_refl, Hal, natlist_eqb_refl, Hre, Hre3. cbn [andb].
+    assert (Hr : option_eqb Bool.eqb (if f_reenter (r_fn rs) then Some true else None)
+                            (if f_reenter (r_fn rs) then Some true else None) = true).
+    { apply optbool_eqb_spec. reflexivity. }
+    rewrite Hr. cbn [andb]. apply andb_true_iff. split.
+    + apply perm_perm_eqb. etransitivity; [|exact Hperm].
+      apply Permutation_app.
+      * symmetry. apply sort_toks_perm.
+      * apply filter_perm. symmetry. apply sort_toks_perm.
+    + unfold own_junk_okb. cbn [o_junk o_res]. destruct (has tok_timeout (sort_toks (sp_junk (w_sp w')))) eqn:Eh; [|reflexivity].
+      apply result_eqb_spec. apply Hown. apply has_In in Eh.
+      eapply Permutation_in; [symmetry; apply sort_toks_perm | exact Eh].
+  - (* stale junk: refused, nothing happens *)
+    assert (Hc : r_clear rs = false).
+    { destruct (r_clear rs); [discriminate | reflexivity]. }
+    rewrite Hc in *. rewrite <- Hj3.
+    rewrite (run_stale 0 batch (r_timeout rs) (r_fn rs) w3 (id_flag _ Hid3)) by (rewrite Ej; discriminate).
+    cbn [fst snd]. split; [|split; [exact Hid3 | reflexivity]].
+    unfold run_okb, clean_okb, observe. cbn [o_res o_reentry o_ran o_order o_junk o_running o_pending o_readers o_stop_ok o_sigs].
+    destruct Hid3 as [H1 H2 H3 H4 H5 H6 H7]. rewrite H1, H2, H3, H5, H6, Hsig3, Hran3, Hre3, natlist_eqb_refl.
+    cbn [length negb Nat.eqb andb].
+    rewrite Ej. destruct (sort_toks (j0 :: jr)) as [|s0 sr] eqn:Es.
+    + apply sort_toks_nil in Es. discriminate.
+    + rewrite natlist_eqb_refl. reflexivity.
+Qed.
+
+Lemma steps_ok batch : forall rss w, Idle w -> Forall wf_run rss ->
+  runs_okb (sort_toks (sp_junk (w_sp w))) rss (steps batch w rss) = true.
+Proof.
+  induction rss as [|rs rss IH]; intros w Hid Hwf; simpl; [reflexivity|].
+  inversion Hwf as [|? ? Hrs Hrest]; subst.
+  destruct (step_ok batch w rs Hid Hrs) as [H1 [H2 H3]].
+  destruct (step batch w rs) as [o w'] eqn:Es. cbn [fst snd] in *.
+  apply andb_true_iff. split.
+  - destruct (r_clear rs); exact H1.
+  - rewrite H3. apply IH; assumption.
+Qed.
+
+Lemma idle_new orc : Idle (new_world orc).
+Proof. constructor; reflexivity. Qed.
+
+Theorem model_meets_spec i : wf i -> spec_okb i (model i) = true.
+Proof.
+  intro Hwf. unfold spec_okb, model.
+  exact (steps_ok (i_batch i) (i_runs i) (new_world (i_oracle i)) (idle_new _) Hwf).
+Qed.
+
+(* ================= the clauses, on the model's own state ================= *)
+(* a reactor at rest, driven by a Spinner that is not inside run(), with the harness's log reset *)
+Definition Ready (w : world) : Prop := Idle w /\ w_ran w = [].
+
+Definition run1 (batch : bool) (T : time) (f : fn) (w : world) := run spinner_iterations batch T f w.
+
+Theorem clause_result batch T f w : Ready w -> sp_junk (w_sp w) = [] ->
+  Allowed T f (w_ran (snd (run1 batch T f w))) (fst (run1 batch T f w)).
+Proof.
+  intros [Hid Hran] Hj. unfold run1. rewrite tab_iterations.
+  destruct (run_fresh batch T f w Hid Hj Hran) as [r [w' [Er [_ [Hal _]]]]]. rewrite Er. cbn [fst snd].
+  apply allowed_sound. exact Hal.
+Qed.
+
+(* when exactly one of the three events is due at the earliest instant, the result is that event's *)
+Lemma allowed_unique T f order r k0 :
+  is_sync f = false -> f_stop_now f = false -> Allowed T f order r ->
+  (forall k, ev_time T f k = Some (earliest (events T f)) -> k = k0) ->
+  r = decided f [k0].
+Proof.
+  intros Hsy Hsn Hal Hu. unfold Allowed in Hal. unfold is_sync in Hsy. rewrite Hsn in Hal.
+  assert (H : let E := crash_toks order in
+              E <> [] /\ (forall k, In k E -> exists t, ev_time T f k = Some t /\ In t (map fst (events T f))
+                                                      /\ forall ev, In ev (events T f) -> t <= fst ev)
+              /\ r = decided f E).
+  { destruct (f_shape f); [discriminate| |]; exact Hal. }
+  cbv zeta in H. destruct H as [Hne [Hall ->]].
+  assert (Hk : forall k, In k (crash_toks order) -> k = k0).
+  { intros k Hin. destruct (Hall k Hin) as [t [Ht [Hin' Hle]]]. apply Hu. rewrite Ht. f_equal.
+    destruct (earliest_spec (events T f) (events_ne T f)) as [He1 He2].
+    apply in_map_iff in Hin' as [[t' r'] [Ef Hin']]. simpl in Ef. subst t'.
+    apply in_map_iff in He1 as [[t2 r2] [Ef2 Hin2]]. simpl in Ef2.
+    pose proof (He2 _ Hin') as Ha. pose proof (Hle _ Hin2) as Hb. simpl in Ha, Hb. lia. }
+  assert (Hhas : forall j, has j (crash_toks order) = has j [k0]).
+  { intro j. destruct (has j (crash_toks order)) eqn:Eh.
+    - apply has_In in Eh. apply Hk in Eh. subst. symmetry. apply has_In. left; reflexivity.
+    - destruct (has j [k0]) eqn:Eh2; [|reflexivity]. apply has_In in Eh2 as [<-|[]].
+      destruct (crash_toks order) as [|e0 er] eqn:Ec; [congruence|].
+      assert (e0 = k0) by (apply Hk; left; reflexivity). subst.
+      assert (has k0 (k0 :: er) = true) by (apply has_In; left; reflexivity). congruence. }
+  unfold decided. rewrite !Hhas. reflexivity.
+Qed.
+
+Lemma min_l_lt a b : a < b -> Nat.min a b = a. Proof. intro; apply Nat.min_l; lia. Qed.
+Lemma min_r_lt a b : b < a -> Nat.min a b = b. Proof. intro; apply Nat.min_r; lia. Qed.
+
+(* the timings the statement names, without ties: nobody stops the reactor *)
+Theorem clause_result_untied batch T f w r : Ready w -> sp_junk (w_sp w) = [] ->
+  f_stop f = None -> f_stop_now f = false -> r = fst (run1 batch T f w) ->
+  (forall how o, f_shape f = Sync how o -> r = result_of o)
+  /\ (forall t o, f_shape f = Later t o -> t < T -> r = result_of o)
+  /\ (forall t o, f_shape f = Later t o -> T < t -> r = Raised ETimeout)
+  /\ (f_shape f = Never -> r = Raised ETimeout).
+Proof.
+  intros Hr Hj Hstop Hsn ->. pose proof (clause_result batch T f w Hr Hj) as Hal.
+  repeat split.
+  - intros how o Es. unfold Allowed in Hal. rewrite Es in Hal. exact Hal.
+  - intros t o Es Hlt. rewrite (allowed_unique T f _ _ 1 ltac:(unfold is_sync; rewrite Es; reflexivity) Hsn Hal).
+    + unfold decided. simpl. rewrite Es. reflexivity.
+    + unfold events, earliest, ev_time. rewrite Es, Hstop. unfold time in *. simpl.
+      rewrite (min_r_lt T (Nat.min t T)) by (rewrite min_l_lt; lia). rewrite min_l_lt by lia.
+      intros [|[|[|k]]] H; try reflexivity; try discriminate. injection H as H. lia.
+  - intros t o Es Hlt. rewrite (allowed_unique T f _ _ 0 ltac:(unfold is_sync; rewrite Es; reflexivity) Hsn Hal).
+    + reflexivity.
+    + unfold events, earliest, ev_time. rewrite Es, Hstop. unfold time in *. simpl.
+      rewrite (min_r_lt t T) by lia. rewrite Nat.min_id.
+      intros [|[|[|k]]] H; try reflexivity; try discriminate. injection H as H. lia.
+  - intros Es. rewrite (allowed_unique T f _ _ 0 ltac:(unfold is_sync; rewrite Es; reflexivity) Hsn Hal).
+    + reflexivity.
+    + unfold events, earliest, ev_time. rewrite Es, Hstop. unfold time in *. simpl. rewrite Nat.min_id.
+      intros [|[|[|k]]] H; try reflexivity; discriminate.
+Qed.
+
+(* ... and a stop request that comes strictly first: NoResultError *)
+Theorem clause_result_stopped batch T f w s : Ready w -> sp_junk (w_sp w) = [] ->
+  is_sync f = false -> f_stop_now f = false -> f_stop f = Some s -> s < T ->
+  (forall t o, f_shape f = Later t o -> s < t) ->
+  fst (run1 batch T f w) = Raised ENoResult.
+Proof.
+  intros Hr Hj Hsy Hsn Hstop Hlt Hsh. pose proof (clause_result batch T f w Hr Hj) as Hal.
+  rewrite (allowed_unique T f _ _ 2 Hsy Hsn Hal); [reflexivity|].
+  unfold events, earliest, ev_time. rewrite Hstop. unfold is_sync in Hsy. unfold time in *.
+  destruct (f_shape f) as [|t o|] eqn:Es; [discriminate| |]; simpl.
+  - specialize (Hsh t o eq_refl).
+    rewrite (min_l_lt s T) by lia. rewrite (min_r_lt t s) by lia. rewrite (min_r_lt T s) by lia.
+    intros [|[|[|k]]] H; try reflexivity; try discriminate; injection H as H; lia.
+  - rewrite (min_l_lt s T) by lia. rewrite (min_r_lt T s) by lia.
+    intros [|[|[|k]]] H; try reflexivity; try discriminate; injection H as H; lia.
+Qed.
+
+Theorem clause_reentry batch T f w : Ready w -> sp_junk (w_sp w) = [] -> f_reenter f = true ->
+  w_reentry (snd (run1 batch T f w)) = Some true /\ w_flag (snd (run1 batch T f w)) = false.
+Proof.
+  intros [Hid Hran] Hj Hre. unfold run1. rewrite tab_iterations.
+  destruct (run_fresh batch T f w Hid Hj Hran) as [r [w' [Er [Hid' [_ [Hr _]]]]]]. rewrite Er. cbn [snd].
+  rewrite Hre in Hr. split; [exact Hr | exact (id_flag _ Hid')].
+Qed.
+
+Theorem clause_stale batch T f w : Ready w -> sp_junk (w_sp w) <> [] ->
+  run1 batch T f w = (Raised EStaleJunk, w).
+Proof. intros [Hid _] Hj. apply run_stale; [exact (id_flag _ Hid) | exact Hj]. Qed.
+
+Theorem clause_clean batch T f w : Ready w ->
+  let w' := snd (run1 batch T f w) in
+  running (w_r w') = false /\ queue (w_r w') = [] /\ readers (w_r w') = [] /\ w_flag w' = false
+  /\ (sp_junk (w_sp w) = [] ->
+      Permutation (filter nt (w_ran w') ++ filter nt (sp_junk (w_sp w'))) (sched_tokens f)
+      /\ (In tok_timeout (sp_junk (w_sp w')) -> fst (run1 batch T f w) = Raised ENoResult)).
+Proof.
+  intros [Hid Hran]. cbv zeta. destruct (sp_junk (w_sp w)) as [|j0 jr] eqn:Ej.
+  - unfold run1. rewrite tab_iterations.
+    destruct (run_fresh batch T f w Hid Ej Hran) as [r [w' [Er [Hid' [_ [_ [Hp [Ho _]]]]]]]]. rewrite Er. cbn [fst snd].
+    destruct Hid'. repeat split; assumption.
+  - rewrite (clause_stale batch T f w (conj Hid Hran)) by (rewrite Ej; discriminate). cbn [snd].
+    destruct Hid. repeat split; try assumption; discriminate.
+Qed.
+
+Theorem clause_restored batch T f w : Ready w ->
+  let w' := snd (run1 batch T f w) in
+  w_stop w' = SReal /\ really_stopped (w_r w') = false
+  /\ forall s, In s reactor_signals -> getsig s (w_sig w') = getsig s (w_sig w).
+Proof.
+  intros [Hid Hran]. cbv zeta. destruct (sp_junk (w_sp w)) as [|j0 jr] eqn:Ej.
+  - unfold run1. rewrite tab_iterations.
+    destruct (run_fresh batch T f w Hid Ej Hran) as [r [w' [Er [Hid' [_ [_ [_ [_ Hrest]]]]]]]]. rewrite Er. cbn [snd].
+    split; [exact (id_stop _ Hid')|]. split; [exact (id_rs _ Hid')|].
+    intros s Hs. apply Hrest. apply tab_preserved. exact Hs.
+  - rewrite (clause_stale batch T f w (conj Hid Hran)) by (rewrite Ej; discriminate). cbn [snd].
+    split; [exact (id_stop _ Hid)|]. split; [exact (id_rs _ Hid)|]. reflexivity.
+Qed.
+
+Theorem clause_histories i : wf i -> Spec i (model i).
+Proof. intro H. apply spec_okb_sound. apply model_meets_spec. exact H. Qed.
